@@ -339,7 +339,17 @@ def run_idmap(rep, tier, rng, bdir, replay=None):
     spec_bad = 0
     for b0 in range(0, len(cases), 250):
         batch = cases[b0:b0 + 250]
-        iout, crash = run_cases(impl, batch, timeout=IMPL_TIMEOUT)
+        try:
+            iout, crash = run_cases(impl, batch, timeout=IMPL_TIMEOUT)
+        except FileNotFoundError:
+            # the scratch build was evicted by a concurrent build of another tree: rebuild and go on
+            bdir, err = nng_build("asan")
+            impl, err = wb_build(bdir, "wb_idmap.c") if bdir else (None, err)
+            if impl is None:
+                p = rep.replay_file("idmap_driver_build_failed.txt", err)
+                rep.violation(p, "id map white-box driver vanished and does not rebuild", nofail=True)
+                break
+            iout, crash = run_cases(impl, batch, timeout=IMPL_TIMEOUT)
         mout, mcrash = run_cases(model, batch, timeout=900, args=margs())
         if crash:
             ci, rc, errtxt = crash
